@@ -167,18 +167,24 @@ def firstT : List Term → Option (List Nat × Term)
     | Option.none => firstT as
 
 /-- If every operand of a pointwise operator is `T_p(xⱼ)` for one valid `p` (ranks statically
-    equal) or a size-1 constant, return `p` and the operands with `T_p` removed. -/
-def pullArgs (args : List Term) : Option (List Nat × List Term) :=
+    equal) or a size-1 constant, return `p`, the operands with `T_p` removed and the common rank
+    (if statically known). -/
+def pullArgs (args : List Term) : Option (List Nat × List Term × Option Nat) :=
   match firstT args with
   | Option.none => Option.none
   | some (p, x) =>
     if !validPerm p then Option.none else
     match args with
-    | [_] => (pullAll p Option.none args).map (fun xs => (p, xs))
+    | [_] => (pullAll p Option.none args).map (fun xs => (p, xs, rankOf x))
     | _ =>
       match rankOf x with
       | Option.none => Option.none
-      | some k => (pullAll p (some k) args).map (fun xs => (p, xs))
+      | some k => (pullAll p (some k) args).map (fun xs => (p, xs, some k))
+
+/-- annotation derived for a node created by a rule: element type of the first operand, rank `k` -/
+def derivedAnn (xs : List Term) (k : Option Nat) : Ann :=
+  ⟨match xs with | x :: _ => dtypeOf x | [] => Option.none,
+   k.map (fun n => List.replicate n Dim.unk)⟩
 
 def mkIdentity (ann : Ann) (args : Term) : Term :=
   match args with
@@ -217,14 +223,36 @@ def mkCastLike (ann : Ann) (args : Term) : Term :=
     else app .castLike ann args
   | _ => app .castLike ann args
 
-/-- pull a common transpose above a broadcasting pointwise operator. -/
+/-- `x * Sigmoid(x)` (either operand order) → `Swish(x)`; `Not(const b)` → `const (!b)`;
+    otherwise pull a common transpose above a broadcasting pointwise operator. -/
 def mkPw (nm att : String) (ann : Ann) (args : Term) : Term :=
+  match nm, att, args with
+  | "Not", "", cons (boolc b) nil => boolc (!b)
+  | "Mul", "", cons x (cons (app (.pw "Sigmoid" "") _ (cons y nil)) nil) =>
+    if proper x && x.erase == y.erase then app (.pw "Swish" "") Ann.none (cons x nil)
+    else app (.pw nm att) ann args
+  | "Mul", "", cons (app (.pw "Sigmoid" "") _ (cons y nil)) (cons x nil) =>
+    if proper x && x.erase == y.erase then app (.pw "Swish" "") Ann.none (cons x nil)
+    else app (.pw nm att) ann args
+  | _, _, _ =>
   match pullArgs args.toList with
-  | some (p, xs) =>
+  | some (p, xs, k) =>
     if args == ofList args.toList then
-      app (.transpose p) Ann.none (cons (app (.pw nm att) Ann.none (ofList xs)) nil)
+      app (.transpose p) Ann.none (cons (app (.pw nm att) (derivedAnn xs k) (ofList xs)) nil)
     else app (.pw nm att) ann args
   | Option.none => app (.pw nm att) ann args
+
+def sortNat (l : List Nat) : List Nat := (l.mergeSort (· ≤ ·)).eraseDups
+
+/-- `Reduce[axes,keepdims=1](T_p(a)) → T_p(Reduce[p[axes],keepdims=1](a))` -/
+def mkReduce (nm : String) (axes : List Nat) (ann : Ann) (args : Term) : Term :=
+  match args with
+  | cons (app (.transpose p) _ (cons a nil)) nil =>
+    if proper a && validPerm p && rankOf a == some p.length && axes.all (· < p.length) then
+      app (.transpose p) Ann.none
+        (cons (app (.reduce nm (sortNat (axes.map (permFn p)))) Ann.none (cons a nil)) nil)
+    else app (.reduce nm axes) ann args
+  | _ => app (.reduce nm axes) ann args
 
 /-- smart constructor: `args` are already in normal form. -/
 def mk (h : Head) (ann : Ann) (args : Term) : Term :=
@@ -234,6 +262,7 @@ def mk (h : Head) (ann : Ann) (args : Term) : Term :=
   | .cast to => mkCast to ann args
   | .castLike => mkCastLike ann args
   | .pw nm att => mkPw nm att ann args
+  | .reduce nm ax => mkReduce nm ax ann args
   | h => app h ann args
 
 /-- bottom-up normalisation. -/
@@ -250,5 +279,17 @@ def normN : Nat → Term → Term
     forms agree (annotations erased). `after` must carry no annotations except on leaves. -/
 def certify (before after : Term) : Bool :=
   (normN 3 before).erase == (normN 3 after).erase
+
+end J2O.C02
+
+namespace J2O.C02
+
+/-- ONNX operators (default domain) modelled as broadcasting pointwise operators that keep the
+    element type of their first operand.  This classification is part of the validator's
+    reference; it is independent of the lists in /repo. -/
+def pointwiseOps : List String :=
+  ["Elu", "Gelu", "Relu", "Sigmoid", "Swish", "Tanh", "LeakyRelu", "Not", "Abs", "Neg", "Exp",
+   "Log", "Sqrt", "Add", "Mul", "Sub", "Div", "Max", "Min", "Clip", "Erf", "Softplus", "Floor",
+   "Ceil", "Sin", "Cos", "Reciprocal", "Pow", "HardSigmoid", "Selu", "Celu", "Mish", "Sign"]
 
 end J2O.C02
